@@ -71,6 +71,9 @@ class Tok(Object):
     def __copy__(self):
         return self
 
+    def __deepcopy__(self, memo):
+        return self
+
     def replace(self, other, recursive=False):
         return self
 
@@ -90,6 +93,9 @@ class AbsStmt(ast.stmt):
     def __repr__(self):
         return f"S[{self.tok.name}]"
 
+    def __deepcopy__(self, memo):
+        return AbsStmt(self.tok)
+
 
 class AbsExpr(ast.expr):
     _fields = ()
@@ -102,6 +108,9 @@ class AbsExpr(ast.expr):
 
     def __repr__(self):
         return f"E[{self.tok.name}]"
+
+    def __deepcopy__(self, memo):
+        return AbsExpr(self.tok)
 
 
 # Shapes of an abstract Result (everything a rule can observe about a compiled child):
@@ -208,7 +217,17 @@ def show(x):
 
 
 def tokens(shapes, prefix="t", **kw):
-    return [Tok(f"{prefix}{i}", s, line=i + 2, **kw) for i, s in enumerate(shapes)]
+    """One child per shape: a Tok, or for shape "N" a real user Symbol (the bare-name child kind)."""
+    out = []
+    for i, s in enumerate(shapes):
+        if s == "N":
+            sym = S(f"u{prefix}{i}")
+            sym.start_line = sym.end_line = i + 2
+            sym.start_column = sym.end_column = 1
+            out.append(sym)
+        else:
+            out.append(Tok(f"{prefix}{i}", s, line=i + 2, **kw))
+    return out
 
 
 def shape_vectors(n, shapes=SHAPES_BASIC):
